@@ -18,8 +18,10 @@ package augment
 //@   ensures f.augs.arr == old(f.augs.arr) || fresh(f.augs.arr)
 //@   ensures len(f.augs) == old(len(f.augs)) + 1
 
-//@ func (f *finder) line
-//@   inline
+//@ func (f *finder) line(pos) (n)
+//@   requires f.file != nil
+//@   ensures n == fileLine(f.file, pos)
+//@   assigns nothing
 
 //@ func (f *finder) next
 //@   requires f.scanner != nil && f.file != nil
